@@ -85,3 +85,59 @@ PROPS["C07"] = dict(
                  "libsodium and the Python models are independent implementations of the same specifications"],
     trusted_base=TB_COMMON,
 )
+
+# ---------------------------------------------------------------------------------------------- C08
+
+
+def _c08_floors(m, tier):
+    out = []
+    n16 = len(m.cov.get("fill_x_piece[16]", {}))
+    n128 = len(m.cov.get("fill_x_piece[128]", {}))
+    if n16 < 79:
+        out.append("only %d of the 79 reachable (buffer fill, piece class) pairs of the 16-byte buffer seen" % n16)
+    if n128 < 639:
+        out.append("only %d of the 639 reachable (buffer fill, piece class) pairs of the 128-byte buffers seen" % n128)
+    if len(m.cov.get("interface", {})) < 11:
+        out.append("not all 11 incremental interfaces driven")
+    return out
+
+
+PROPS["C08"] = dict(
+    level="exploration",
+    technique="runtime differential monitoring: exhaustive 2-/3-way and random k-way chunkings of every incremental interface, each result compared with the one-shot result (and libsodium's one-shot)",
+    level_text="All 2-way splits of every length 0..=L2 and all 3-way splits of every length 0..=L3 (empty pieces included) are enumerated for "
+               "11 incremental interfaces, plus seeded random k-way partitions of messages up to 16 KiB; the split enumeration is exhaustive "
+               "within its bounds, which reach every (buffer fill, piece class) state of the 16- and 128-byte block buffers; beyond the bounds it is sampling.",
+    level_note="Message contents are one seeded random string per length; the one-shot value is additionally pinned to libsodium.",
+    runs=lambda tier: [dict(build="st", monitor="c08")],
+    floors=_c08_floors,
+    rule="a case is one (interface, message length, partition) triple; distinct = distinct (interface, length, first cut) enumeration cells / random draws; "
+         "non-trivial = at least two pieces; quick: L2=400, L3=140 (signing 150/30); thorough: L2=1100, L3=300 (signing 400/70)",
+    assumptions=["the one-shot functions are correct on the same messages (decided by C07 / C06)"],
+    trusted_base=TB_COMMON,
+)
+
+# ---------------------------------------------------------------------------------------------- C12
+
+
+def _c12_floors(m, tier):
+    out = need(m, "subkey_len", range(16, 65), "accepted subkey lengths")
+    out += need(m, "rejected_len", list(range(0, 16)) + list(range(65, 81)), "rejected subkey lengths")
+    out += need(m, "id_class", ["0x0", "0x1", "0x100000000", "0x8000000000000000", "0xffffffffffffffff", "random"], "subkey ids")
+    return out
+
+
+PROPS["C12"] = dict(
+    level="exploration",
+    technique="runtime differential monitoring: libsodium crypto_kdf_derive_from_key online, hashlib.blake2b (salt/personal) offline on every logged derivation, plus relatedness checks between lengths/ids/contexts",
+    level_text="Every subkey length 16..=64 and every rejected length 0..=15, 65..=80 is exercised for each cell of {key class} x {context class} x "
+               "{special and random ids}; each subkey is compared with libsodium and with an independent BLAKE2b; lengths are enumerated completely, keys/ids sampled.",
+    level_note="Trusts libsodium and hashlib's BLAKE2b as two independent implementations of the keyed, salted, personalised BLAKE2b that crypto_kdf is defined as.",
+    runs=lambda tier: [dict(build="st", monitor="c12")],
+    offline=offline.check_c12,
+    models=[],
+    floors=_c12_floors,
+    rule="a case is (master key, context, subkey id, subkey length); distinct by those parameters; all 49 accepted and 32 rejected lengths per cell",
+    assumptions=[],
+    trusted_base=TB_COMMON,
+)
